@@ -69,6 +69,7 @@ func fieldNameAt(t types.Type, idx int) string {
 func strictOn() Check { return Check{Desc: "strict mode on", Pass: IsTrue, Values: strictVals} }
 
 func c20(r *Report) {
+	defer c20Audit4(r)
 	p := r.P
 	r.Explanation = "Static decision that each documented strict-mode refusal exists and is wired to the flag: for every refusal the failing branch is reachable under the strict flag and its own option only (with the flag on and the insecure option present, success is unreachable; the effect that is insecure is reachable only with the flag off); the flag reaches every component that consults it (every strict-mode struct field / global is assigned from the server configuration's flag, never left at its zero value); strict is the default; outbound HTTP goes through the strict client, which refuses non-https requests when the flag is on; configuration keys that moved and secrets on the command line are refused independently of the flag."
 	r.NotDecided = []string{"koanf's precedence rules and file/env parsing", "whether the documentation lists everything that ought to be refused", "IRMA library production-mode behaviour"}
@@ -167,7 +168,7 @@ func c20(r *Report) {
 	r.MustReach(MustReach{ID: "C20.jsonld.filter-installed-when-strict", Fn: ncl, SuccessOnly: true,
 		Cond:   Check{Desc: "allowUnlistedExternalCalls is false", Pass: IsFalse, Values: func(fn *ssa.Function) []ssa.Value { return paramValues(fn, "allowUnlistedExternalCalls") }},
 		Target: Fn("jsonld", "", "NewFilteredLoader")})
-	r.ArgIs("C20.url.ip-test-on-hostname", p.Func("core", "", "ParsePublicURLWithScheme"), Fn("std:net/netip", "", "ParseAddr"), 0, CallV(Fn("std:net/url", "URL", "Hostname"), -1), 1)
+	r.ArgIs("C20.url.ip-test-on-hostname", p.Func("core", "", "ParsePublicURLWithScheme"), Fn("std:net/netip", "", "ParseAddr"), 0, OrV(CallV(Fn("std:net/url", "URL", "Hostname"), -1), CallV(Fn("core", "", "lookupHostname"), 0)), 1)
 	// endpoints taken from remote metadata are public URLs in strict mode (fix: the s2s token endpoint and the OpenID4VCI credential
 	// endpoint were only url.Parse'd, so https://127.0.0.1 was accepted)
 	for _, m := range []string{"AccessToken", "VerifiableCredentials"} {
@@ -357,6 +358,7 @@ func c20OutboundClients(r *Report) {
 	})
 	r.Own(OwnSpec{ID: "C20.outbound.clients", Op: "construct or use a raw net/http client", Sites: sites, Min: 3, Classes: []string{"prod"}, Owners: map[string]string{
 		"http/client.New":                        "the strict client wraps it",
+		"jsonld.NewContextLoader":                "the JSON-LD library needs an *http.Client: its Transport is remoteContextTransport, which refuses non-HTTPS requests in strict mode on every hop (C20.jsonld.remote-context-*)",
 		"http/client.NewWithCache":               "the strict client wraps it",
 		"http/client.NewWithTLSConfig":           "the strict client wraps it",
 		"core.CreateHTTPInternalClient":          "CLI client for the node's own internal API",
@@ -492,6 +494,32 @@ func c20FlagWiring(r *Report) {
 				if st, ok := ref.(*ssa.Store); ok && st.Addr == x {
 					isWrite = true
 					writes[k] = append(writes[k], AccessPath(st.Val, 0))
+					// the flag handed down through a (possibly negated) bool parameter: look at what the callers pass; an
+					// even number of negations between the caller's value and the slot keeps the flag's meaning
+					val, neg := st.Val, 0
+					if u, isU := val.(*ssa.UnOp); isU && u.Op == token.NOT {
+						val, neg = u.X, 1
+					}
+					if prm, isP := val.(*ssa.Parameter); isP {
+						for idx, fp := range fn.Params {
+							if fp != prm {
+								continue
+							}
+							for _, cs := range p.CallSites(SSAFn(fn, fn.Name()), false) {
+								cc := cs.Instr.(ssa.CallInstruction).Common()
+								if idx >= len(cc.Args) {
+									continue
+								}
+								a, n := cc.Args[idx], neg
+								if u, isU := a.(*ssa.UnOp); isU && u.Op == token.NOT {
+									a, n = u.X, n+1
+								}
+								if n%2 == 0 {
+									writes[k] = append(writes[k], AccessPath(a, 0))
+								}
+							}
+						}
+					}
 				}
 			}
 			if !isWrite {
